@@ -210,6 +210,9 @@ func relPath(p *Program, path string) string {
 // letUsesResults: a let that mentions a result (directly or through an earlier
 // such let) is evaluated in the post-state, all others in the pre-state.
 func letUsesResults(l *Let, fc *FuncContract) bool {
+	if l.Post {
+		return true
+	}
 	names := append([]string{}, fc.Results...)
 	for _, prev := range fc.Lets {
 		if prev == l {
